@@ -1258,9 +1258,22 @@ def _headers(ctx) -> None:
             if len(fc) == 1 and fc[0][1] and fc[0][0][0] == "call" and fc[0][0][1] == ("name", "any") and len(fc[0][0][2]) == 1:
                 G = fc[0][0][2][0]
                 se = single_element(gi, G) if G[0] == "obj" else None
-                if se is not None and len(se[0]) == 1 and gi.loops[se[0][0]].iter == DN:
-                    nm = ("elem", DN, se[0][0])
-                    filt = flatten_conds(se[1])
+                src_ = gi.loops[se[0][0]].iter if se is not None and len(se[0]) == 1 else None
+                pre_filt = []
+                if src_ is not None and src_ != DN and src_[0] == "obj":
+                    # (the names without the elision marker, computed first: [n for n in display_names if n is not MARKER])
+                    se2 = single_element(gi, src_)
+                    if se2 is not None and len(se2[0]) == 1 and gi.loops[se2[0][0]].iter == DN and se2[2] == ("elem", DN, se2[0][0]):
+                        from ..symx import substitute as _subst
+                        pre_filt = [(_subst(c_, {("elem", DN, se2[0][0]): ("elem", src_, se[0][0])}), p_) for c_, p_ in flatten_conds(se2[1])]
+                        src_ok = True
+                    else:
+                        src_ok = False
+                else:
+                    src_ok = src_ == DN
+                if se is not None and len(se[0]) == 1 and src_ok:
+                    nm = ("elem", src_, se[0][0])
+                    filt = pre_filt + list(flatten_conds(se[1]))
                     marker_only = len(filt) == 1 and not filt[0][1] and filt[0][0][0] == "cmp" and filt[0][0][1] == "Is" \
                         and nm in (filt[0][0][2], filt[0][0][3]) and (filt[0][0][3] if filt[0][0][2] == nm else filt[0][0][2])[0] == "name"
                     NONE_ = ("const", "NoneType", None)
